@@ -100,10 +100,73 @@ def bigpipe_case(R, idx):
     return {'idx': idx, 'mode': mode, 'rows': 24, 'cols': 80, 'files': {'f1': text}, 'args': ['f1'], 'data': data.encode()}
 
 
+def capacity_case(R, idx):
+    """streams aimed at the fixed-size tables of the editor: 16 buffer slots, the 128-byte autoindent, 512-byte ex lines,
+    120-byte keywords, the 4 KiB input queue, 1 KiB paths: just below, at and beyond each"""
+    fam = R.choice(['files', 'files', 'indent', 'indent', 'exline', 'word', 'path', 'regs', 'splits', 'subst'])
+    files = {'f1': b'one two\n\tthree four\nfive\n', 'tags': b'foo\tf1\t1\n'}
+    mode = 'v'
+    if fam == 'files':
+        n = R.choice([15, 16, 17, 18, 20, 33])
+        for i in range(1, n + 1):
+            files['g%d' % i] = b'file %d\n' % i
+        mode = R.choice(['v', 'se'])
+        pre = ':' if mode == 'v' else ''
+        order = list(range(1, n + 1)) + [R.randint(1, n) for _ in range(R.randint(0, 6))]
+        data = ''.join('%se%s g%d\n' % (pre, R.choice(['', '!']), i) + R.choice(['', '', pre + 's/e/E/\n', pre + 'b\n', pre + 'e #\n', pre + 'b %d\n' % R.randint(0, 17), pre + 'b +\n', pre + 'b -\n']) for i in order)
+        data += pre + 'b\n' + pre + 's\n'
+        args = R.choice([['f1'], [], ['g1', 'g2', 'g3']])
+    elif fam == 'indent':
+        ws = lambda: R.choice(['\t', ' ', '\t', ' \t']) * R.choice([30, 60, 64, 100, 126, 127, 128, 129, 200])
+        data = R.choice(['o', 'O', 'A', 'i', 'cc', 'S']) + ''.join(ws() + R.choice(['x', '', 'y z']) + '\n' for _ in range(R.randint(2, 5))) + '\x1b'
+        data += R.choice(['', '.', 'u', 'o\x14\x14\x04z\x1b', '>>..', ':se noai\no' + ws() + 'k\n' + ws() + '\x1b'])
+        args = ['f1']
+    elif fam == 'exline':
+        L = R.choice([500, 509, 510, 511, 512, 513, 520, 1023, 1024, 1025, 4000, 4095, 4096, 5000])
+        body = R.choice(['s/o/%s/', 'a|%s', 'ec %s', '/%s/', 's/%s/x/', 'e %s', 'r %s', 'w! %s', 'se %s', 'g/o/s/o/%s/', 'k %s', '!%s', 'ta %s', 'cm %s'])
+        line = body % ('a' * max(1, L - len(body) + 2))
+        mode = R.choice(['v', 'se', 'se'])
+        data = (':' if mode == 'v' else '') + line + '\n' + R.choice(['', 'u\n', '1\n'])
+        args = ['f1']
+    elif fam == 'word':
+        L = R.choice([100, 118, 119, 120, 121, 130, 300, 1100])
+        files['f1'] = ('w' * L + ' b ' + 'w' * L + '\nb\n').encode()
+        data = R.choice(['\x01', 'w\x01', '\x1d', '*', 'gd', 'gf', '\x17gf', 'ga', '\x01n', 'K', 'q']) + R.choice(['', 'n', 'N'])
+        args = ['f1']
+    elif fam == 'path':
+        L = R.choice([200, 250, 255, 256, 1000, 1023, 1024, 1025, 4200])
+        name = 'p' * L
+        mode = R.choice(['v', 'se'])
+        pre = ':' if mode == 'v' else ''
+        data = ''.join(pre + c + '\n' for c in R.sample(['e ' + name, 'w ' + name, 'r ' + name, 'e! ' + name, 'f', 'b', 'so ' + name, 'w! %', 'e #', 'n ' + name + ' f1', 'next'], 5))
+        args = R.choice([['f1'], [name], ['f1', name]])
+    elif fam == 'regs':
+        big = 'r' * R.choice([4000, 4095, 4096, 4100, 9000])
+        files['f1'] = (big + '\nx\n').encode()
+        data = ''.join(R.choice(['"ayy', '"Ayy', '"ap', '"byw', '"Bdd', '@a', '"a2p', 'u', 'yyP', ':pu a\n', ':rs c\nabc\n.\n', ':ra a\n', '"1p.', '"cp']) for _ in range(R.randint(3, 12)))
+        args = ['f1']
+    elif fam == 'splits':
+        data = ''.join(R.choice(['\x17s', '\x17s', '\x17j', '\x17k', '\x17o', '\x17c', '\x17x', ':e f1\n', 'dd', 'p', '\x06', '\x02', ':b\n']) for _ in range(R.randint(5, 60)))
+        args = ['f1']
+    else:
+        n = R.choice([9, 10, 60, 64, 65, 100])
+        pat = '\\(a\\)' * n if R.random() < 0.5 else '(a)' * n
+        rep = ''.join('\\%d' % R.randint(0, 9) for _ in range(R.randint(1, 40))) + '&' * R.randint(0, 5)
+        files['f1'] = ('a' * 200 + '\n').encode()
+        mode = 'se'
+        data = 's/%s/%s/g\n' % (pat, rep) + R.choice(['', 'u\n', '&&\n', 's\n', '~\n'])
+        args = ['f1']
+    rows, cols = R.choice(WINDOWS)
+    return {'idx': idx, 'mode': mode, 'rows': rows, 'cols': cols, 'files': files, 'args': args, 'data': data.encode()}
+
+
 def make_case(idx, tests):
     R = rng('c05', idx)
-    if R.random() < 0.01:
+    x = R.random()
+    if x < 0.01:
         return bigpipe_case(R, idx)
+    if x < 0.06:
+        return capacity_case(R, idx)
     kind = R.choice(['mixed', 'mixed', 'ascii', 'ltr'])
     lines = gen.rand_buffer(R, kind, 10)
     if R.random() < 0.15:
@@ -235,7 +298,7 @@ def run(tier, V):
             V.violation(key, 'mode %s window %dx%d stream %s :: %s' % (case['mode'], case['rows'], case['cols'], common.show(case['data'], 160), summarize(r.err)), wit)
     cov = {'slow_streams_finished_only_by_the_plain_build': slow, 'msan_streams': nm, 'evaluations': n + nm, 'distinct_nontrivial': n + nm, 'streams_by_mode': modes, 'window_sizes_seen': sorted(wins), 'stream_bytes': nbytes,
            'test_scripts_used_as_seeds': len(tests), 'odd_seeds': len(VI_ODD) + len(EX_MISC),
-           'rule': ('%d streams: vi grammar programs, ex grammar programs, hand-written odd-but-legal seeds, 1% filters/pipe writes of 100-500 KB buffers through commands that exit early, mutations (truncate/splice/duplicate/swap/insert valid UTF-8) of those and of the %d test scripts; '
+           'rule': ('%d streams: vi grammar programs, ex grammar programs, hand-written odd-but-legal seeds, 1%% filters/pipe writes of 100-500 KB buffers through commands that exit early, 5%% capacity streams (17+ buffers, 128-byte indents, 512-byte ex lines, 120-byte words, 1 KiB paths, 4 KiB registers, many splits, 64+ groups), mutations (truncate/splice/duplicate/swap/insert valid UTF-8) of those and of the %d test scripts; '
                     'x random buffers (ASCII, multi-byte, wide, combining, RTL, long lines, empty, no final newline) x window sizes 2x2..60x200 x -v / -s -e / -e, run as uid nobody under ASan+UBSan (and a further slice under MemorySanitizer) with a whitelist shell. '
                     'every stream is distinct (seeded index) and non-trivial (at least one command).' % (n, len(tests))),
            'samples': samples[:6] or [{'note': 'no sample'}]}
